@@ -29,6 +29,34 @@ inductive E
 
 abbrev R := Except E S
 
+/-- which library fixes the modelled tree carries — one flag per `pending/C11-<slug>.diff` (false = the code of /repo
+    792c820, true = the code with that patch).  Every definition and theorem below is stated for an arbitrary `Fx`; the
+    driver runs `cur`.  When a patch lands in /repo its flag flips in `cur` (that one line is the patch's `.lean.diff`). -/
+structure Fx where
+  nullUnion : Bool := false     -- C11-nullable-union: a Union / Xor with a null-admitting member is made Nilable
+  nullAnd : Bool := false       -- C11-nullable-intersection: an Intersection whose members all admit null is made Nilable
+  fmtSib : Bool := false        -- C11-format-siblings: minLength / maxLength / pattern next to a known format are kept
+  openObj : Bool := false       -- C11-open-object: an object without additionalProperties:false is passthrough
+  reqAddl : Bool := false       -- C11-required-additional: required names outside properties are judged by additionalProperties
+  intBounds : Bool := false     -- C11-integer-bounds: fractional bounds of an integer schema are rounded inwards
+  tupOpen : Bool := false       -- C11-tuple-open: prefixItems without items leaves the tail unconstrained
+  deriving DecidableEq, Repr
+
+/-- /repo 792c820. -/
+def Fx.legacy : Fx := {}
+/-- every pending patch applied. -/
+def Fx.all : Fx := ⟨true, true, true, true, true, true, true⟩
+
+/-- the tree `./check C11` runs against. -/
+def cur : Fx :=
+  { nullUnion := false
+    nullAnd := false
+    fmtSib := false
+    openObj := false
+    reqAddl := false
+    intBounds := false
+    tupOpen := false }
+
 /-- what `convert` reads off one schema object; sub-schemas are kept as conversion RESULTS so
     that an error in a sibling the dispatch ignores is ignored as well. -/
 structure Parts where
@@ -82,12 +110,17 @@ def patCk : Pat → StrCk
   | .noLow => .upper
   | .rx r => .re r
 
-def convString (p : Parts) : S :=
+/-- `constrainedString` (the tail of `convertString` before C11-format-siblings). -/
+def strCks (p : Parts) : List StrCk := optL p.minLength .min ++ optL p.maxLength .max ++ optL p.pattern patCk
+
+def convString (fx : Fx) (p : Parts) : S :=
   match p.format with
   | some (name, good) =>
-      if knownFormats.contains name then .enum good      -- dedicated schema; minLength/maxLength/pattern ignored
-      else .str (optL p.minLength .min ++ optL p.maxLength .max ++ optL p.pattern patCk)
-  | none => .str (optL p.minLength .min ++ optL p.maxLength .max ++ optL p.pattern patCk)
+      if knownFormats.contains name then
+        -- dedicated schema; legacy: minLength/maxLength/pattern ignored; fixed: Intersection(format, constrained string)
+        if fx.fmtSib && !(strCks p).isEmpty then .and (.enum good) (.str (strCks p)) else .enum good
+      else .str (strCks p)
+  | none => .str (strCks p)
 
 def convNumber (p : Parts) : S :=
   .flt (optL p.minimum .gte ++ optL p.maximum .lte ++ optL p.exMin .gt ++ optL p.exMax .lt ++ optL p.mul .mul)
@@ -101,21 +134,40 @@ def truncQ (q : Int) : Int := Int.tdiv q 4
     unsatisfiable pair of bounds. -/
 def mulCk (m : Int) : List NumCk := if m = 0 then [.gt 0, .lt 0] else [.mul m]
 
-def convInteger (p : Parts) : S :=
+/-- `int64(math.Floor(val))` / `int64(math.Ceil(val))` of a bound given in quarters. -/
+def floorQ (q : Int) : Int := Int.fdiv q 4
+def ceilQ (q : Int) : Int := -(Int.fdiv (-q) 4)
+/-- `s.MultipleOf.Num()`: the numerator of q/4 in lowest terms. -/
+def numQ (q : Int) : Int := q / (Int.gcd q 4 : Int)
+
+def convInteger (fx : Fx) (p : Parts) : S :=
+  if fx.intBounds then
+    .int .int (optL p.minimum (fun q => .gte (ceilQ q)) ++ optL p.maximum (fun q => .lte (floorQ q))
+      ++ optL p.exMin (fun q => .gt (floorQ q)) ++ optL p.exMax (fun q => .lt (ceilQ q))
+      ++ (match p.mul with | some q => mulCk (numQ q) | none => []))
+  else
   .int .int (optL p.minimum (fun q => .gte (truncQ q)) ++ optL p.maximum (fun q => .lte (truncQ q))
     ++ optL p.exMin (fun q => .gt (truncQ q)) ++ optL p.exMax (fun q => .lt (truncQ q))
     ++ (match p.mul with | some q => mulCk (truncQ q) | none => []))
 
-def convArray (p : Parts) : R :=
+/-- `convertTuple` without `items`: legacy — no rest element; C11-tuple-open — `Unknown()` unless `maxItems` closes
+    the tuple at the prefix. -/
+def tupRest (fx : Fx) (maxItems : Option Nat) (n : Nat) : SOpt :=
+  if fx.tupOpen then (match maxItems with
+    | none => .some .any
+    | some m => if n < m then .some .any else .none)
+  else .none
+
+def convArray (fx : Fx) (p : Parts) : R :=
   match p.prefixItems with
-  | some (r :: rs) =>                    -- convertTuple: minItems / maxItems are not read
+  | some (r :: rs) =>                    -- convertTuple: minItems is not read (maxItems only to decide the rest element)
       match seqR (r :: rs) with
       | .error e => .error e
       | .ok items =>
           match p.items with
           | some (.error e) => .error e
           | some (.ok rest) => .ok (.tup (.some rest) [] (slistOf items))
-          | none => .ok (.tup .none [] (slistOf items))
+          | none => .ok (.tup (tupRest fx p.maxItems items.length) [] (slistOf items))
   | _ =>
       match (match p.items with | some r => r | none => .ok .any) with
       | .error e => .error e
@@ -135,49 +187,78 @@ def convProps (req : List Str) : List (Str × R) → Except E (List (Str × S))
   | (_, .error .panic) :: _ => .error .panic
   | (_, .error (.unsupported _)) :: r => convProps req r
 
-/-- required names without a (converted) property get an `Unknown()` entry. -/
-def addRequired (req : List Str) (fields : List (Str × S)) : List (Str × S) :=
-  fields ++ ((req.filter (fun k => !(fields.map (·.1)).contains k)).eraseDups.map (fun k => (k, S.any)))
+/-- required names without a (converted) property get an entry `v` (legacy: `Unknown()`). -/
+def addRequired (v : S) (req : List Str) (fields : List (Str × S)) : List (Str × S) :=
+  fields ++ ((req.filter (fun k => !(fields.map (·.1)).contains k)).eraseDups.map (fun k => (k, v)))
 
-def convObject (p : Parts) : R :=
+/-- `additionalValue` (C11-required-additional): the schema of a value whose key is not listed in `properties` —
+    the converted `additionalProperties`, `Unknown()` when absent or not convertible.  Legacy: always `Unknown()`. -/
+def addlValue (fx : Fx) (p : Parts) : S :=
+  if fx.reqAddl then (match p.addl with | some (_, .ok c) => c | _ => .any) else .any
+
+/-- the mode of an object that `additionalProperties` does not close: legacy strip, C11-open-object passthrough. -/
+def openMode (fx : Fx) : Mode := if fx.openObj then .loose else .strip
+
+/-- the object path of `convertObject` once the properties are converted. -/
+def objOf (fx : Fx) (p : Parts) (fields : List (Str × S)) : R :=
+  let shape := shapeOf (addRequired (addlValue fx p) p.required fields)
+  match p.addl with
+  | some (some false, _) => .ok (.obj .strict .none false [] shape)
+  | some (none, .ok c) => .ok (.obj .loose (.some c) false [] shape)     -- Passthrough().WithCatchall(c)
+  | some (none, .error .panic) => .error .panic
+  | _ => .ok (.obj (openMode fx) .none false [] shape)
+
+def convObject (fx : Fx) (p : Parts) : R :=
   match p.properties with
   | some (kv :: kvs) =>
       match convProps p.required (kv :: kvs) with
       | .error e => .error e
-      | .ok fields =>
-      let shape := shapeOf (addRequired p.required fields)
-      match p.addl with
-      | some (some false, _) => .ok (.obj .strict .none false [] shape)
-      | some (none, .ok c) => .ok (.obj .loose (.some c) false [] shape)     -- Passthrough().WithCatchall(c)
-      | some (none, .error .panic) => .error .panic
-      | _ => .ok (.obj .strip .none false [] shape)
+      | .ok fields => objOf fx p fields
   | _ =>
       match p.addl with
-      | some (_, .error e) => .error e
-      | some (_, .ok v) => .ok (.record (.str []) v [])       -- `required` is not read on this path
-      | none => .ok (.obj .strip .none false [] (shapeOf (addRequired p.required [])))
+      | some (_, r) =>
+          if fx.reqAddl && !p.required.isEmpty then objOf fx p []      -- a Record cannot require keys
+          else (match r with
+            | .error e => .error e
+            | .ok v => .ok (.record (.str []) v []))      -- legacy: `required` is not read on this path
+      | none => .ok (.obj (openMode fx) .none false [] (shapeOf (addRequired .any p.required [])))
 
-def convOneType (p : Parts) : TypeName → R
-  | .string => .ok (convString p)
+def convOneType (fx : Fx) (p : Parts) : TypeName → R
+  | .string => .ok (convString fx p)
   | .number => .ok (convNumber p)
-  | .integer => .ok (convInteger p)
+  | .integer => .ok (convInteger fx p)
   | .boolean => .ok .bool
   | .null => .ok .nil
-  | .array => convArray p
-  | .object => convObject p
+  | .array => convArray fx p
+  | .object => convObject fx p
+
+/-- `admitsNil`: `schema.ParseAny(nil)` succeeds. -/
+def admitsNil (s : S) : Bool := accepts s .null
+
+def nilIf (b : Bool) (s : S) : S := if b then .nul s else s
+
+/-- `unionOf` (C11-nullable-union): a Union decides a nil input before its members are asked, so it is made Nilable
+    when a member admits null.  Legacy: the bare Union. -/
+def unionOf (fx : Fx) (ss : List S) : S := nilIf (fx.nullUnion && ss.any admitsNil) (.union (slistOf ss))
+
+/-- `convertOneOf`'s result: Nilable when exactly one member admits null. -/
+def xorOf (fx : Fx) (ss : List S) : S := nilIf (fx.nullUnion && (ss.countP admitsNil == 1)) (.xor (slistOf ss))
+
+/-- `convertAllOf`'s result (C11-nullable-intersection): Nilable when every member admits null. -/
+def andOf (fx : Fx) (a : S) (rest : List S) (chain : S) : S := nilIf (fx.nullAnd && (a :: rest).all admitsNil) chain
 
 def typeOrder : List TypeName := [.string, .number, .integer, .boolean, .null, .array, .object]
 
-def convByType (p : Parts) : R :=
+def convByType (fx : Fx) (p : Parts) : R :=
   match p.types with
   | [] => .ok .any
-  | [t] => convOneType p t
+  | [t] => convOneType fx p t
   | ts =>
-      match seqR ((typeOrder.filter (fun t => ts.contains t)).map (convOneType p)) with
+      match seqR ((typeOrder.filter (fun t => ts.contains t)).map (convOneType fx p)) with
       | .error e => .error e
       | .ok [] => .ok .any
       | .ok [s] => .ok s
-      | .ok ss => .ok (.union (slistOf ss))
+      | .ok ss => .ok (unionOf fx ss)
 
 def chainAnd : S → List S → S
   | a, [] => a
@@ -192,7 +273,7 @@ def allStrs : List Prim → Option (List Str)
   | _ => none
 
 /-- `convert` after the sub-schemas have been converted.  `rejects` = the strict-mode table. -/
-def assemble (rejects : Str → Bool) (strict : Bool) (p : Parts) : R :=
+def assemble (fx : Fx) (rejects : Str → Bool) (strict : Bool) (p : Parts) : R :=
   match p.ref with
   | some r => r                                   -- `$ref` first: siblings are not looked at
   | none =>
@@ -204,19 +285,19 @@ def assemble (rejects : Str → Bool) (strict : Bool) (p : Parts) : R :=
       match seqR (r :: rs) with
       | .error e => .error e
       | .ok [] => .ok .any
-      | .ok (a :: rest) => .ok (chainAnd a rest)
+      | .ok (a :: rest) => .ok (andOf fx a rest (chainAnd a rest))
   | _, some (r :: rs), _ =>
       match seqR (r :: rs) with
       | .error e => .error e
       | .ok [] => .ok .any
       | .ok [a] => .ok a
-      | .ok ss => .ok (.union (slistOf ss))
+      | .ok ss => .ok (unionOf fx ss)
   | _, _, some (r :: rs) =>
       match seqR (r :: rs) with
       | .error e => .error e
       | .ok [] => .ok .any
       | .ok [a] => .ok a
-      | .ok ss => .ok (.xor (slistOf ss))
+      | .ok ss => .ok (xorOf fx ss)
   | _, _, _ =>
   match p.const with
   | some v => litOf v
@@ -228,8 +309,8 @@ def assemble (rejects : Str → Bool) (strict : Bool) (p : Parts) : R :=
       | none =>
           match seqR ((v :: vs).map litOf) with
           | .error e => .error e
-          | .ok ss => .ok (.union (slistOf ss))
-  | _ => convByType p
+          | .ok ss => .ok (unionOf fx ss)
+  | _ => convByType fx p
 
 /-- the value of a boolean schema. -/
 def boolOf : JS → Option Bool
@@ -237,16 +318,16 @@ def boolOf : JS → Option Bool
   | _ => none
 
 mutual
-def fromJS (rejects : Str → Bool) (strict : Bool) : JS → R
+def fromJS (fx : Fx) (rejects : Str → Bool) (strict : Bool) : JS → R
   | .bool true => .ok .any
   | .bool false => .ok .never
-  | .node kws => assemble rejects strict (collect rejects strict kws {})
+  | .node kws => assemble fx rejects strict (collect fx rejects strict kws {})
 
-def collect (rejects : Str → Bool) (strict : Bool) : KwList → Parts → Parts
+def collect (fx : Fx) (rejects : Str → Bool) (strict : Bool) : KwList → Parts → Parts
   | .nil, p => p
-  | .cons k ks, p => collect rejects strict ks (addKw rejects strict k p)
+  | .cons k ks, p => collect fx rejects strict ks (addKw fx rejects strict k p)
 
-def addKw (rejects : Str → Bool) (strict : Bool) : Kw → Parts → Parts
+def addKw (fx : Fx) (rejects : Str → Bool) (strict : Bool) : Kw → Parts → Parts
   | .type t, p => { p with types := [t] }
   | .types ts, p => { p with types := ts }
   | .minLength n, p => { p with minLength := some n }
@@ -259,32 +340,32 @@ def addKw (rejects : Str → Bool) (strict : Bool) : Kw → Parts → Parts
   | .multipleOf q, p => { p with mul := some q }
   | .enum vs, p => { p with enum := some vs }
   | .const v, p => { p with const := some v }
-  | .items j, p => { p with items := some (fromJS rejects strict j) }
-  | .prefixItems js, p => { p with prefixItems := some (fromList rejects strict js) }
+  | .items j, p => { p with items := some (fromJS fx rejects strict j) }
+  | .prefixItems js, p => { p with prefixItems := some (fromList fx rejects strict js) }
   | .minItems n, p => { p with minItems := some n }
   | .maxItems n, p => { p with maxItems := some n }
-  | .properties ps, p => { p with properties := some (fromProps rejects strict ps) }
+  | .properties ps, p => { p with properties := some (fromProps fx rejects strict ps) }
   | .required ks, p => { p with required := ks }
   | .additionalProperties j, p =>
-      { p with addl := some (boolOf j, fromJS rejects strict j) }
+      { p with addl := some (boolOf j, fromJS fx rejects strict j) }
   | .propertyNames _, p => { p with others := p.others ++ ["propertyNames".toList.map Char.toNat] }
   | .minProperties _, p => { p with others := p.others ++ ["minProperties".toList.map Char.toNat] }
   | .maxProperties _, p => { p with others := p.others ++ ["maxProperties".toList.map Char.toNat] }
-  | .anyOf js, p => { p with anyOf := some (fromList rejects strict js) }
-  | .oneOf js, p => { p with oneOf := some (fromList rejects strict js) }
-  | .allOf js, p => { p with allOf := some (fromList rejects strict js) }
+  | .anyOf js, p => { p with anyOf := some (fromList fx rejects strict js) }
+  | .oneOf js, p => { p with oneOf := some (fromList fx rejects strict js) }
+  | .allOf js, p => { p with allOf := some (fromList fx rejects strict js) }
   | .not _, p => { p with others := p.others ++ ["not".toList.map Char.toNat] }
   | .format n g, p => { p with format := some (n, g) }
-  | .ref j, p => { p with ref := some (fromJS rejects strict j) }
+  | .ref j, p => { p with ref := some (fromJS fx rejects strict j) }
   | .other n, p => { p with others := p.others ++ [n] }
 
-def fromList (rejects : Str → Bool) (strict : Bool) : JSList → List R
+def fromList (fx : Fx) (rejects : Str → Bool) (strict : Bool) : JSList → List R
   | .nil => []
-  | .cons j js => fromJS rejects strict j :: fromList rejects strict js
+  | .cons j js => fromJS fx rejects strict j :: fromList fx rejects strict js
 
-def fromProps (rejects : Str → Bool) (strict : Bool) : JSProps → List (Str × R)
+def fromProps (fx : Fx) (rejects : Str → Bool) (strict : Bool) : JSProps → List (Str × R)
   | .nil => []
-  | .cons k j ps => (k, fromJS rejects strict j) :: fromProps rejects strict ps
+  | .cons k j ps => (k, fromJS fx rejects strict j) :: fromProps fx rejects strict ps
 end
 
 /-! ## const / enum whose members are arbitrary JSON values
@@ -497,6 +578,20 @@ def CE.rtValid : CE → Json → Bool
   | .union ls, x => ls.any (fun l => l.rtValid x)
   | .any, _ => true
 
+/-! ### C11-nullable-union on the `CE` view
+
+`convertEnum`'s Union of literal schemas goes through `unionOf`: with the patch it is Nilable when a member is JSON null
+(`literalSchema(nil)` = `Nil()`, the only literal schema that admits nil).  `CE` stays the schema without the flag. -/
+
+def enumNilable (fx : Fx) (vs : List Json) : Bool := fx.nullUnion && (allStrsJ vs).isNone && vs.any (fun v => v.isNull)
+
+/-- ParseAny verdict of `convertEnum`'s result on the tree `fx`. -/
+def parseEnumFx (fx : Fx) (vs : List Json) (x : Json) : Option Bool :=
+  if enumNilable fx vs && x.isNull then some true else (fromEnumJ vs).parse x
+
+/-- validity against its round-trip document (`anyOf [<the union's document>, {type: null}]` when Nilable). -/
+def rtEnumFx (fx : Fx) (vs : List Json) (x : Json) : Bool := (enumNilable fx vs && x.isNull) || (fromEnumJ vs).rtValid x
+
 def Json.isArr : Json → Bool
   | .arr _ => true
   | _ => false
@@ -628,7 +723,7 @@ def litsOf : List Prim → SList
 
 mutual
 /-- the schema FromJSONSchema produces for the document (what `fromJS` computes — theorem `c11_conv`). -/
-def fromJ1 : J1 → S
+def fromJ1 (fx : Fx) : J1 → S
   | .str mn mx pat => .str (optL mn .min ++ optL mx .max ++ optL pat patCk)
   | .num mn mx emn emx mul => .flt (optL mn .gte ++ optL mx .lte ++ optL emn .gt ++ optL emx .lt ++ optL mul .mul)
   | .bool => .bool
@@ -636,60 +731,60 @@ def fromJ1 : J1 → S
   | .any => .any
   | .tru => .any
   | .fls => .never
-  | .arr it mn mx => .slice (fromJ1 it) (optL mn .min ++ optL mx .max)
-  | .tup items => .tup .none [] (fromJ1L items)
-  | .obj props closed => .obj (if closed then .strict else .strip) .none false [] (fromJ1P props)
-  | .objC props ca => .obj .loose (.some (fromJ1 ca)) false [] (fromJ1P props)
-  | .rcd v => .record (.str []) (fromJ1 v) []
+  | .arr it mn mx => .slice (fromJ1 fx it) (optL mn .min ++ optL mx .max)
+  | .tup items => .tup .none [] (fromJ1L fx items)
+  | .obj props closed => .obj (if closed then .strict else openMode fx) .none false [] (fromJ1P fx props)
+  | .objC props ca => .obj .loose (.some (fromJ1 fx ca)) false [] (fromJ1P fx props)
+  | .rcd v => .record (.str []) (fromJ1 fx v) []
   | .const p => match p with | .null => .nil | p => .lit [p]
   | .enumS vs => .enum vs
   | .enumP ps => .union (litsOf ps)
-  | .anyOf ms => .union (fromJ1L ms)
-  | .oneOf ms => .xor (fromJ1L ms)
-  | .allOf2 a b => .and (fromJ1 a) (fromJ1 b)
-  | .ref d => fromJ1 d
+  | .anyOf ms => .union (fromJ1L fx ms)
+  | .oneOf ms => .xor (fromJ1L fx ms)
+  | .allOf2 a b => .and (fromJ1 fx a) (fromJ1 fx b)
+  | .ref d => fromJ1 fx d
   | .fmt _ good => .enum good
-def fromJ1L : J1List → SList
+def fromJ1L (fx : Fx) : J1List → SList
   | .nil => .nil
-  | .cons d ds => .cons (fromJ1 d) (fromJ1L ds)
-def fromJ1P : J1Props → Shape
+  | .cons d ds => .cons (fromJ1 fx d) (fromJ1L fx ds)
+def fromJ1P (fx : Fx) : J1Props → Shape
   | .nil => .nil
-  | .cons k d r => .cons k (fromJ1 d) (fromJ1P r)
+  | .cons k d r => .cons k (fromJ1 fx d) (fromJ1P fx r)
 end
 
 mutual
 /-- the fragment on which the produced schema accepts exactly the valid instances.  Outside it:
     `integer` (not in `J1` at all), null-admitting union members, optional properties, open tuples,
     sibling keywords, … — the finding classes of notes/C11.md. -/
-def good : J1 → Bool
+def good (fx : Fx) : J1 → Bool
   | .str _ _ _ => true
   | .num _ _ _ _ mul => (match mul with | some m => decide (0 < m) | none => true)
-  | .arr it _ _ => good it
-  | .tup items => goodL items && decide (0 < items.length)
-  | .obj props _ => goodP props && !props.keys.isEmpty
-  | .objC props ca => goodP props && !props.keys.isEmpty && good ca && !(isBoolDoc ca)
-  | .rcd v => good v
+  | .arr it _ _ => good fx it
+  | .tup items => goodL fx items && decide (0 < items.length)
+  | .obj props _ => goodP fx props && !props.keys.isEmpty
+  | .objC props ca => goodP fx props && !props.keys.isEmpty && good fx ca && !(isBoolDoc ca)
+  | .rcd v => good fx v
   | .const _ => true
   | .enumS vs => !vs.isEmpty
   | .enumP ps => !ps.isEmpty && (allStrs ps).isNone && !ps.contains .null
-  | .anyOf ms => goodM ms && decide (2 ≤ ms.length)
-  | .oneOf ms => goodM ms && decide (2 ≤ ms.length)
+  | .anyOf ms => goodM fx ms && decide (2 ≤ ms.length)
+  | .oneOf ms => goodM fx ms && decide (2 ≤ ms.length)
   | .allOf2 a b =>
-      good a && good b && !(fromJ1 a).acceptsNull && !(fromJ1 b).acceptsNull
-      && !(fromJ1 a).isStrictObj && !(fromJ1 b).isStrictObj
-  | .ref d => good d
+      good fx a && good fx b && !(fromJ1 fx a).acceptsNull && !(fromJ1 fx b).acceptsNull
+      && !(fromJ1 fx a).isStrictObj && !(fromJ1 fx b).isStrictObj
+  | .ref d => good fx d
   | .fmt name good => knownFormats.contains name && !good.isEmpty
   | _ => true
-def goodL : J1List → Bool
+def goodL (fx : Fx) : J1List → Bool
   | .nil => true
-  | .cons d ds => good d && goodL ds
+  | .cons d ds => good fx d && goodL fx ds
 /-- union members: the union rejects nil before its members are asked. -/
-def goodM : J1List → Bool
+def goodM (fx : Fx) : J1List → Bool
   | .nil => true
-  | .cons d ds => good d && !(fromJ1 d).acceptsNull && goodM ds
-def goodP : J1Props → Bool
+  | .cons d ds => good fx d && !(fromJ1 fx d).acceptsNull && goodM fx ds
+def goodP (fx : Fx) : J1Props → Bool
   | .nil => true
-  | .cons _ d r => good d && goodP r
+  | .cons _ d r => good fx d && goodP fx r
 /-- `additionalProperties: true/false` take other paths of convertObject. -/
 def isBoolDoc : J1 → Bool
   | .tru => true
